@@ -15,6 +15,10 @@ from . import ast, exceptions
 RuleDecorator = TypeVar("RuleDecorator", bound=Callable[..., Any])
 
 _RWS = r"\s+"
+# An infix operator keyword can only follow an operand, and every operand ends
+# in a word character, a closing quote or a closing parenthesis. Anywhere else
+# (after `-`, `,`, `:`, `(` or at the start) the same letters are an identifier.
+_INFIX_RWS = r"(?<=[\w')])\s+"
 _INTEGER = r"[+-]?\d+"
 _DATE = r"[1-9]\d{3}-(?:0\d|1[0-2])-(?:[0-2]\d|3[01])"
 _TIME = r"(?:[01]\d|2[0-3]):[0-5]\d(:?:[0-5]\d(?:\.\d{1,12})?)"
@@ -205,31 +209,31 @@ class ODataLexer(Lexer):
     ####################################################################################
     # Arithmetic
     ####################################################################################
-    @_(rf"{_RWS}add{_RWS}")
+    @_(rf"{_INFIX_RWS}add{_RWS}")
     def ADD(self, t):
         ":meta private:"
         t.value = ast.Add()
         return t
 
-    @_(rf"{_RWS}sub{_RWS}")
+    @_(rf"{_INFIX_RWS}sub{_RWS}")
     def SUB(self, t):
         ":meta private:"
         t.value = ast.Sub()
         return t
 
-    @_(rf"{_RWS}mul{_RWS}")
+    @_(rf"{_INFIX_RWS}mul{_RWS}")
     def MUL(self, t):
         ":meta private:"
         t.value = ast.Mult()
         return t
 
-    @_(rf"{_RWS}div{_RWS}")
+    @_(rf"{_INFIX_RWS}div{_RWS}")
     def DIV(self, t):
         ":meta private:"
         t.value = ast.Div()
         return t
 
-    @_(rf"{_RWS}mod{_RWS}")
+    @_(rf"{_INFIX_RWS}mod{_RWS}")
     def MOD(self, t):
         ":meta private:"
         t.value = ast.Mod()
@@ -244,13 +248,13 @@ class ODataLexer(Lexer):
     ####################################################################################
     # Boolean logic
     ####################################################################################
-    @_(rf"{_RWS}and{_RWS}")
+    @_(rf"{_INFIX_RWS}and{_RWS}")
     def AND(self, t):
         ":meta private:"
         t.value = ast.And()
         return t
 
-    @_(rf"{_RWS}or{_RWS}")
+    @_(rf"{_INFIX_RWS}or{_RWS}")
     def OR(self, t):
         ":meta private:"
         t.value = ast.Or()
@@ -265,43 +269,43 @@ class ODataLexer(Lexer):
     ####################################################################################
     # Comparators
     ####################################################################################
-    @_(rf"{_RWS}eq{_RWS}")
+    @_(rf"{_INFIX_RWS}eq{_RWS}")
     def EQ(self, t):
         ":meta private:"
         t.value = ast.Eq()
         return t
 
-    @_(rf"{_RWS}ne{_RWS}")
+    @_(rf"{_INFIX_RWS}ne{_RWS}")
     def NE(self, t):
         ":meta private:"
         t.value = ast.NotEq()
         return t
 
-    @_(rf"{_RWS}lt{_RWS}")
+    @_(rf"{_INFIX_RWS}lt{_RWS}")
     def LT(self, t):
         ":meta private:"
         t.value = ast.Lt()
         return t
 
-    @_(rf"{_RWS}le{_RWS}")
+    @_(rf"{_INFIX_RWS}le{_RWS}")
     def LE(self, t):
         ":meta private:"
         t.value = ast.LtE()
         return t
 
-    @_(rf"{_RWS}gt{_RWS}")
+    @_(rf"{_INFIX_RWS}gt{_RWS}")
     def GT(self, t):
         ":meta private:"
         t.value = ast.Gt()
         return t
 
-    @_(rf"{_RWS}ge{_RWS}")
+    @_(rf"{_INFIX_RWS}ge{_RWS}")
     def GE(self, t):
         ":meta private:"
         t.value = ast.GtE()
         return t
 
-    @_(rf"{_RWS}in{_RWS}")
+    @_(rf"{_INFIX_RWS}in{_RWS}")
     def IN(self, t):
         ":meta private:"
         t.value = ast.In()
